@@ -138,7 +138,7 @@ def rule_optional(repo, rid, modules, floor=0):
                      '(0, 0.0, a zero tensor) is a value, not an absent argument', floor=floor)
     n = 0
     for m in modules:
-        for f in repo.module(m).functions.values():
+        for f in repo.functions_view(m):
             ps = optional_value_params(f.node)
             if not ps:
                 continue
